@@ -481,6 +481,30 @@ func run(c *mon.Ctx) {
 		prevRead = &e
 		c.Class(fmt.Sprintf("readpmt/streams=%d/packets=%d", n, len(pk)))
 	})
+	// one stream-type value, one language descriptor and one maximum-bitrate descriptor read by several goroutines
+	c.Stream("concurrent-readers-of-one-descriptor", c.N(8, 200), func(i int, r *gen.Rand) {
+		c.ConcurrentReaders("stream type / descriptors", c.N(300, 300), r, func(q *gen.Rand) func() string {
+			code := q.Byte()
+			st := psi.LookupPmtStreamType(code)
+			l, at, rate := lang(q), q.Byte(), uint32(q.Intn(1<<21))
+			dl := psi.NewPmtDescriptor(0x0a, append([]byte(l), at))
+			dr := psi.NewPmtDescriptor(0x0e, []byte{0xc0 | byte(rate>>16), byte(rate >> 8), byte(rate)})
+			es := psi.NewPmtElementaryStream(code, 0x100, []psi.PmtDescriptor{dl, dr})
+			return func() string {
+				if st.StreamType() != code || st.StreamTypeDescription() == "" || st.IsStreamWherePresentationLagsEbp() != lags(code) || es.StreamType() != code || es.IsStreamWherePresentationLagsEbp() != lags(code) {
+					return fmt.Sprintf("stream type %#02x read as %#02x (lags %v)", code, st.StreamType(), st.IsStreamWherePresentationLagsEbp())
+				}
+				if dl.DecodeIso639LanguageCode() != l || dl.DecodeIso639AudioType() != at || dl.DecodeMaximumBitRate() != 0 {
+					return fmt.Sprintf("language descriptor read as %q / %#x, encoded %q / %#x", dl.DecodeIso639LanguageCode(), dl.DecodeIso639AudioType(), l, at)
+				}
+				if dr.DecodeMaximumBitRate() != rate || es.MaxBitRate() != uint64(rate)*50*8 || dr.DecodeIso639LanguageCode() != "" {
+					return fmt.Sprintf("maximum bitrate read as %d (stream: %d), encoded %d", dr.DecodeMaximumBitRate(), es.MaxBitRate(), rate)
+				}
+				return ""
+			}
+		})
+		c.Class("concurrent-readers-of-one-descriptor")
+	})
 	per := c.N(30, 50000)
 	c.Exhaustive("all 256 descriptor tags for the neutral-value checks", 256)
 	c.Stream("foreign-tags", 256, func(tag int, r *gen.Rand) {
